@@ -88,6 +88,17 @@ Theorem C11_comb_rule : forall C a b,
 Proof. intros C a b. exact (comb_rule_all C (fun n => Ok n) a b). Qed.
 Print Assumptions C11_comb_rule.
 
+(* known finding C11/empty-entrypoint (FIXLOG #41, not fixed): the value pytezos builds from "KT1...%"
+   (entrypoint part present but empty) is outside has_type, and indeed its optimized forms parse
+   back to the address WITHOUT entrypoint part, an unequal value *)
+Theorem C11_empty_entrypoint_refuted : forall C lam,
+  let v := VAddr (KT1, repeat x00 20) (Some []) in
+  of_mich C lam TAddress (to_mich C Optimized v) = Ok (VAddr (KT1, repeat x00 20) None) /\
+  of_mich C lam TAddress (to_mich C LegacyOptimized v) = Ok (VAddr (KT1, repeat x00 20) None) /\
+  has_type lam TAddress v = false.
+Proof. exact empty_entrypoint_changes. Qed.
+Print Assumptions C11_empty_entrypoint_refuted.
+
 (* ---------------------------------------------------------------- non-vacuity *)
 
 Definition sha0 : bytes -> bytes := fun _ => repeat x00 32.
